@@ -241,6 +241,6 @@ PROPS = {
         rule='cases = workload cases of 6 steps on fresh objects; one evaluation = one case under memcheck or one case run twice with different heap fill patterns. distinct_nontrivial = distinct generator-label sequences (generator, sub-kind, padded?, message-type class) observed; the memcheck stage alone must reach every generator class (feature c20_generators_under_memcheck).',
         assumptions=COMMON_ASSUME[1:] + ['valgrind 3.19 memcheck reports every use of undefined values it is designed to detect; client requests are honoured'],
         floors=dict(quick={'distinct_nontrivial': 2000, 'memcheck_client_checks': 400000, 'memcheck_cases': 6400, 'differential_cases': 320000, 'feat:c20_generators_under_memcheck': 19},
-                    thorough={'distinct_nontrivial': 5000, 'memcheck_cases': 60000, 'feat:c20_generators_under_memcheck': 19}),
+                    thorough={'distinct_nontrivial': 5000, 'memcheck_cases': 200000, 'feat:c20_generators_under_memcheck': 19}),
     ),
 }
